@@ -25,6 +25,7 @@ import (
 	"reflect"
 	"strings"
 	"time"
+	"unicode"
 
 	"github.com/lestrrat-go/jwx/v2/jwt"
 	"github.com/nuts-foundation/go-did/vc"
@@ -80,11 +81,12 @@ func (sv *signatureVerifier) jsonldProof(documentToVerify any, issuer string, at
 		return newVerificationError("invalid LD-JSON document: %w", err)
 	}
 
-	// Go's JSON decoder matches member names to struct fields case-insensitively, JSON-LD does not: a member like
-	// "verifiablecredential" is read as the presentation's credentials, but to the JSON-LD processor it is an unknown member,
-	// which is dropped during canonicalization and thus not protected by the signature.
+	// Go's JSON decoder matches member names to struct fields case-insensitively, JSON-LD does not: members like
+	// "verifiablecredential" (in a presentation) or "encodedLiſt" (next to "encodedList", in a status list credential)
+	// are read as the actual member, but to the JSON-LD processor they are unknown members,
+	// which are dropped during canonicalization and thus not protected by the signature.
 	if member := caseVariantMember(signedDocument, documentToVerify); member != "" {
-		return newVerificationError("invalid LD-JSON document: member '%s' only differs by case from a known member", member)
+		return newVerificationError("invalid LD-JSON document: member '%s' only differs by case from another member", member)
 	}
 
 	ldProof := proof.LDProof{}
@@ -128,29 +130,68 @@ func (sv *signatureVerifier) jsonldProof(documentToVerify any, issuer string, at
 	return nil
 }
 
-// caseVariantMember returns the name of a member of the JSON document that is not a (JSON) member of the type it was decoded into,
-// but was decoded into one of its fields nevertheless, because encoding/json matches member names case-insensitively.
+// caseVariantMember returns the name of a member of the JSON document that is decoded as if it were another member,
+// because encoding/json matches member names case-insensitively, while it is a different (possibly unknown, thus unsigned)
+// member to the JSON-LD processor. That is the case for:
+//   - a member of the document that is not a (JSON) member of the type it was decoded into, but only differs from one by case,
+//   - a member of any object in the document, that only differs by case from another member of the same object.
+//
 // It returns an empty string if there is no such member.
 func caseVariantMember(document proof.SignedDocument, decodedInto any) string {
 	structType := reflect.TypeOf(decodedInto)
 	for structType != nil && structType.Kind() == reflect.Pointer {
 		structType = structType.Elem()
 	}
-	if structType == nil || structType.Kind() != reflect.Struct {
-		return ""
-	}
-	for i := 0; i < structType.NumField(); i++ {
-		name, _, _ := strings.Cut(structType.Field(i).Tag.Get("json"), ",")
-		if name == "" || name == "-" {
-			continue
+	if structType != nil && structType.Kind() == reflect.Struct {
+		for i := 0; i < structType.NumField(); i++ {
+			name, _, _ := strings.Cut(structType.Field(i).Tag.Get("json"), ",")
+			if name == "" || name == "-" {
+				continue
+			}
+			for member := range document {
+				if member != name && strings.EqualFold(member, name) {
+					return member
+				}
+			}
 		}
-		for member := range document {
-			if member != name && strings.EqualFold(member, name) {
+	}
+	return ambiguousMember(map[string]interface{}(document))
+}
+
+// ambiguousMember searches the JSON value for an object with 2 members of which the names only differ by case.
+func ambiguousMember(value interface{}) string {
+	switch v := value.(type) {
+	case map[string]interface{}:
+		names := make(map[string]struct{}, len(v))
+		for name, child := range v {
+			folded := strings.Map(foldRune, name)
+			if _, exists := names[folded]; exists {
+				return name
+			}
+			names[folded] = struct{}{}
+			if member := ambiguousMember(child); member != "" {
+				return member
+			}
+		}
+	case []interface{}:
+		for _, child := range v {
+			if member := ambiguousMember(child); member != "" {
 				return member
 			}
 		}
 	}
 	return ""
+}
+
+// foldRune maps all runes that are equal under Unicode case-folding (see strings.EqualFold) to the same rune.
+func foldRune(r rune) rune {
+	result := r
+	for folded := unicode.SimpleFold(r); folded != r; folded = unicode.SimpleFold(folded) {
+		if folded < result {
+			result = folded
+		}
+	}
+	return result
 }
 
 func (sv *signatureVerifier) jwtSignature(jwtDocumentToVerify string, issuer string, at *time.Time) error {
